@@ -18,6 +18,7 @@ pub fn run_c07(tier: Tier) -> Report {
     rep.set_rule(
         "every (Y,Cb,Cr) in 0..=255^3: (A) uniform 7x1 picture = SIMD lanes 0..3 + remainder slots 0..2; \
          (B) 7 pictures 7x1 with the triple at position p and the complementary colour elsewhere; \
+         (C) every triple inside 16- and 32-wide pictures (no remainder columns); (D) all 512 combinations of byte offsets 0..7 of the three plane slices in their buffers on nine shapes; \
          non-trivial = triple with at least one unclamped channel (1..=254)",
     );
     rep.extra("model_coefficients", json!([m.gray, m.cr2r, m.cr2g, m.cb2g, m.cb2b]));
@@ -119,6 +120,31 @@ pub fn run_c07(tier: Tier) -> Report {
     });
     rep.add_states(1 << 24);
     rep.add_nontrivial(nontriv.load(Ordering::Relaxed));
+    // (C) every triple again inside wide pictures (widths 16 and 32: multiples of 8 and 16, no
+    // remainder columns): for each chroma pair one picture holding all 256 luma values
+    (0..65536usize).into_par_iter().for_each(|c| {
+        let (cbv, crv) = ((c >> 8) as u8, c as u8);
+        for (w, h) in [(16usize, 16usize), (32, 8)] {
+            let y: Vec<u8> = (0..256).map(|k| k as u8).collect();
+            let ch = vec![cbv; (w / 2) * (h / 2)];
+            let cr = vec![crv; (w / 2) * (h / 2)];
+            match catch(|| yuv420_to_rgba(&y, &ch, &cr, w)) {
+                Err(p) => rep.violation(&crate::evidence::panic_sig(&p), format!("{w}x{h} picture with chroma ({cbv},{crv}): panic {p}"), json!({"kind": "yuv-wide", "w": w, "cb": cbv, "cr": crv})),
+                Ok(o) => {
+                    for k in 0..256usize {
+                        if o.len() != 1024 || o[4 * k..4 * k + 4] != m.conv(k as u8, cbv, crv) {
+                            rep.violation_lazy("C07/wide-picture-triple", || (format!("({k},{cbv},{crv}) in a {w}x{h} picture converts to {:?}, model {:?}", &o[(4 * k).min(o.len().saturating_sub(4))..], m.conv(k as u8, cbv, crv)), json!({"kind": "yuv-wide", "w": w, "y": k, "cb": cbv, "cr": crv})));
+                            break;
+                        }
+                    }
+                }
+            }
+        }
+    });
+    rep.add_transitions(2 * 65536);
+    let n_place = placement_sweep(&rep, &m, "C07", crate::evidence::seed());
+    rep.add_transitions(n_place);
+    rep.extra("slice_placements", json!(n_place));
     // monotonicity over all adjacent pairs of the 2^24-entry table
     let mono_viol = AtomicU64::new(0);
     let pairs = AtomicU64::new(0);
@@ -157,6 +183,38 @@ pub fn run_c07(tier: Tier) -> Report {
     rep.sample(json!({"triple": [81, 90, 240], "layout": "x=5 among complementary pixels", "expected_rgba": m.conv(81, 90, 240)}));
     rep.assume("model: 16.16 coefficients = round(real BT.601 constant * 65536), +32768, arithmetic shift, clamp");
     rep
+}
+
+/// Placement of the three plane slices in memory: every combination of byte offsets 0..8 of the
+/// luma and the two chroma slices within their buffers (allocations are 16-byte aligned, so the
+/// offset is the address modulo 8), for shapes whose widths are and are not multiples of 4, 8, 16.
+/// The result must not depend on where a slice starts.
+pub fn placement_sweep(rep: &Report, m: &Bt601, prop: &str, seed: u64) -> u64 {
+    let shapes: [(usize, usize); 9] = [(8, 2), (16, 2), (16, 3), (24, 4), (32, 2), (64, 3), (7, 3), (12, 2), (4, 4)];
+    let work: Vec<(usize, usize, usize)> = (0..shapes.len()).flat_map(|s| (0..512usize).map(move |o| (s, o, 0))).collect();
+    work.par_iter().for_each(|&(si, o, _)| {
+        let (w, h) = shapes[si];
+        let (oy, ob, orr) = (o & 7, (o >> 3) & 7, (o >> 6) & 7);
+        let (y, cb, cr) = content(0, w, h, seed ^ 0x51);
+        let place = |v: &[u8], off: usize| -> Vec<u8> {
+            let mut b = vec![0xEEu8; v.len() + 16];
+            b[off..off + v.len()].copy_from_slice(v);
+            b
+        };
+        let (by, bb, br) = (place(&y, oy), place(&cb, ob), place(&cr, orr));
+        let (sy, sb, sr) = (&by[oy..oy + y.len()], &bb[ob..ob + cb.len()], &br[orr..orr + cr.len()]);
+        let cw = (w + 1) / 2;
+        match catch(|| yuv420_to_rgba(sy, sb, sr, w)) {
+            Err(p) => rep.violation(&crate::evidence::panic_sig(&p), format!("{w}x{h}, plane slices at byte offsets ({oy},{ob},{orr}) of their buffers: panic {p}"), json!({"kind": "yuv-placement", "w": w, "h": h, "offsets": [oy, ob, orr]})),
+            Ok(out) => {
+                let ok = out.len() == 4 * w * h && (0..w * h).all(|k| out[4 * k..4 * k + 4] == m.conv(y[k], cb[(k / w / 2) * cw + (k % w) / 2], cr[(k / w / 2) * cw + (k % w) / 2]));
+                if !ok {
+                    rep.violation(&format!("{prop}/depends-on-slice-placement"), format!("{w}x{h}: with the plane slices at byte offsets ({oy},{ob},{orr}) of their buffers the conversion differs from the model"), json!({"kind": "yuv-placement", "w": w, "h": h, "offsets": [oy, ob, orr]}));
+                }
+            }
+        }
+    });
+    work.len() as u64
 }
 
 /// content generators for the shape sweep; returns (y, cb, cr)
@@ -233,7 +291,7 @@ pub fn run_c08(tier: Tier) -> Report {
     let seed = crate::evidence::seed();
     let (maxw, maxh) = if tier.thorough() { (512, 64) } else { (160, 24) };
     rep.set_rule(&format!(
-        "all widths 1..={maxw} x heights 1..={maxh} x 8 content classes {:?} (+ extras 352x288, 1x1000, 1000x1; every height / width up to 700 (thorough 3000) next to 2, 3 or 7; prime heights and widths up to 10^6 (thorough 4*10^6)); all row-equality and column-equality patterns of two luma patterns for shapes <= 6x6; all sequences of three calls over 24 small pictures on one thread (purity); \
+        "all widths 1..={maxw} x heights 1..={maxh} x 8 content classes {:?} (+ extras 352x288, 1x1000, 1000x1; every height / width up to 700 (thorough 3000) next to 2, 3 or 7; prime heights and widths up to 10^6 (thorough 4*10^6)); all 512 combinations of byte offsets 0..7 of the three plane slices in their buffers on nine shapes; all row-equality and column-equality patterns of two luma patterns for shapes <= 6x6; all sequences of three calls over 24 small pictures on one thread (purity); \
          non-trivial = shape whose width is not a multiple of 4 or whose height is odd",
         CONTENT_NAMES
     ));
@@ -269,6 +327,10 @@ pub fn run_c08(tier: Tier) -> Report {
     });
     rep.add_states(shapes.len() as u64 * 8);
     rep.add_nontrivial(nt);
+    let n_place = placement_sweep(&rep, &m, "C08", seed);
+    rep.add_transitions(n_place);
+    rep.add_states(n_place);
+    rep.extra("slice_placements", json!(n_place));
     // exhaustive equality patterns on small shapes
     let mut small = vec![];
     for w in 1..=6usize {
